@@ -224,6 +224,7 @@ class Heap:
         self.tdgl = tdgl
         self.fr = fr
         self.xi = xi
+        self.share_names = False
         self.H = H
         self.C = centres(H)
         self.objs = []
@@ -378,6 +379,12 @@ def apply_op(tdgl, heap, o, v):
         # the layer's coherence length is a free parameter of device construction (polygons, probe points and the
         # arguments of Device.translate / rotate / scale are all in length units, whatever xi is)
         layer = tdgl.Layer(coherence_length=heap.xi, london_lambda=2.0 * heap.xi, thickness=0.1)
+        for i_, ob_ in enumerate(objs):       # names are the harness' own: unique, ...
+            ob_.name = f"p{i_ + 1}"
+        if heap.share_names and o["hs"]:      # ... except, in this mode, film and first hole of the device being built
+            # legal: a hole may carry the film's name (a polygon derived by a set operation inherits its parent's name);
+            # the shapes are always addressed through device.film / device.holes[i], never by name
+            objs[o["hs"][0] - 1].name = objs[a - 1].name
         pr = o.get("probes") or []
         if pr:
             pp = fr.pts(np.array(pr, dtype=float) / 2)
@@ -416,6 +423,7 @@ def replay_chain(tdgl, chain, H, variant):
     fr = frame_of(variant, about_origin=any(st["o"]["op"] == "new" and st["o"]["q"] for st in chain))
     xi = XIS[(variant // 13) % len(XIS)]
     heap = Heap(tdgl, H, fr, xi)
+    heap.share_names = bool((variant // 5) % 2)
     ev, forms, diffs = [], [], []
     for n, st in enumerate(chain):
         o = st["o"]
@@ -445,7 +453,7 @@ def replay_chain(tdgl, chain, H, variant):
                 diffs.append({"step": n + 1, "form": form, "expected": {"out": want[0], "res": want[1], "objs": want[2], "devs": want[3]},
                               "observed": {"out": got[0], "res": got[1], "objs": got[2], "devs": got[3]}})
     return {"kind": "chain", "H": H, "ev": ev, "key": chain_key(chain), "variant": variant, "forms": forms, "pydiff": diffs[:1],
-            "frame": fr.name, "xi": xi,
+            "frame": fr.name, "xi": xi, "share_names": heap.share_names,
             "ops": [st["o"] for st in chain]}
 
 
@@ -465,7 +473,7 @@ def replay_chains_to_file(tdgl, args, tmp):
     for ops, v in zip(args["chains"], args["variants"]):
         t = replay_chain(tdgl, [{"o": o} for o in ops], args["H"], v)
         traces.append(strip_trace(t))
-        meta.append({"key": t["key"], "forms": t["forms"], "n": len(t["ev"]), "frame": t["frame"], "xi": t["xi"],
+        meta.append({"key": t["key"], "forms": t["forms"], "n": len(t["ev"]), "frame": t["frame"], "xi": t["xi"], "share_names": t["share_names"],
                      "ops": [[e["op"], e["kind"], e["inplace"], e["out"]] for e in t["ev"]]})
     with open(args["out"], "w") as f:
         json.dump(traces, f)
@@ -633,7 +641,9 @@ def primitive_relations(tdgl, rnd, ev):
         short = rnd.choice([0.01, 0.02, 0.1, 0.5, 1.0])
         long_ = round(short * rnd.choice([1, 3, 10, 40, 100, 400, 1000]), 4)
         w, h = (short, long_) if rnd.random() < 0.5 else (long_, short)
-        p = rnd.choice([4, 5, 8, 12, 20, 50, 101])
+        # points >= 8: the longer side then gets >= 2 points and the outline has its four corners; with 4..7 points the
+        # unchanged primitive can degenerate (box(0.3, 0.1, points=4) returns 2 vertices) - observed, not part of this family
+        p = rnd.choice([8, 9, 12, 20, 50, 101])
         c = np.array([round(rnd.uniform(-3, 3), 2), round(rnd.uniform(-3, 3), 2)])
         what = f"box({w}, {h}, points={p}, center={tuple(c)})"
         try:
